@@ -1,5 +1,6 @@
 SPECIFICATION SSpec
-CONSTANTS Logicals = {1, 2, 3}
+CONSTANTS EndKinds = {"unmap", "abort"}
+          Logicals = {1, 2, 3}
           MaxLen = 4
 INVARIANT Emit
 CHECK_DEADLOCK FALSE
